@@ -231,3 +231,57 @@ def validate_traces(items):
             v = json.loads(body)
             verdicts[v["gid"] - 1] = v
     return verdicts, illegal, res.stats
+
+
+def render_text(items):
+    """items: [{env, names, walk}] -> list of text (str) per item, via spec/Print.tla."""
+    path = _write_given(items)
+    res = run_tlc("Print", {}, invariants=["PDump"], prefix=("PVEC",), spec="PSpec", env={"GIVEN_FILE": path})
+    out = [None] * len(items)
+    for tag, body in res.lines:
+        v = json.loads(body)
+        out[v["gid"] - 1] = "".join(l + "\n" for l in v["lines"])
+    return out, res.stats
+
+
+PRINT_INTS = [0, 7, 10, 255, 256, 4660, 65535, 1000000, 2147483647]
+PRINT_BYTES = [97, 0, 9, 10, 13, 92, 32, 126, 127, 255, 34, 65]
+
+
+def repayload_for_print(env, t, walk):
+    """Replace scalar payloads by values the Print specification can render
+    in decimal (TLC integers are 32 bit) and bytes of every escape class."""
+    value = S.walk_to_value(env, t, walk)
+    counter = [0]
+
+    def scal(b):
+        counter[0] += 1
+        q = counter[0]
+        if b["k"] == "byte":
+            return (PRINT_BYTES[q % len(PRINT_BYTES)],)
+        w = b["w"]
+        if b["s"] and q % 3 == 0:
+            return tuple([255] * w) if (w > 2 or q % 2) else tuple((256 ** w - 3).to_bytes(w, "little"))
+        cands = [x for x in PRINT_INTS if x < 256 ** w // (2 if b["s"] else 1)]
+        return tuple(cands[q % len(cands)].to_bytes(w, "little"))
+
+    def tr(t, x):
+        b = env.base(t)
+        if b["k"] in ("int", "flt", "byte"):
+            return scal(b)
+        d = env.d(b["i"])
+        if d["k"] == "enum":
+            return x
+        if d["k"] == "union":
+            return ("union", x[1], tr(d["arms"][x[1] - 1]["t"], x[2]))
+        out = []
+        for j, (m, y) in enumerate(zip(d["ms"], x[1]), 1):
+            if m["f"] == "plain":
+                out.append(y if env.is_sizer(d["ms"], j) else tr(m["t"], y))
+            elif m["f"] == "opt":
+                out.append(None if y is None else tr(m["t"], y))
+            else:
+                out.append([tr(m["t"], e) for e in y])
+        return ("struct", out)
+
+    return S.value_to_walk(env, t, tr(t, value))
